@@ -47,7 +47,7 @@ pub trait Basic {
 
 /// Only shared receivers: usable through by-reference and reference-counted containers.
 #[cglue_trait]
-pub trait ReadOnly {
+pub trait ReadOnly: Send + Sync {
     fn r_get(&self) -> u64;
     fn r_touch(&self, v: u64) -> u64;
     fn r_str(&self) -> &str;
@@ -305,7 +305,7 @@ pub trait ChildrenMore {
 /// (IOPort < Inspect and KVStore < KeyDumper case-sensitively; the other way round otherwise).
 #[cglue_trait]
 #[cglue_forward]
-pub trait IOPort {
+pub trait IOPort: Send {
     fn io_read(&self, port: u32) -> u64;
 }
 #[cglue_trait]
